@@ -404,6 +404,11 @@ def run(ctx, tier):
     import c11
     results += c11.remap_on_success(ctx, rule='C09.remap-on-success')
     results += c13.file_lock_clauses(ctx, 'C09')
+    # "a writer that begins after another's commit sees that commit" includes its free list: published behind the header on every exit, by the commit itself
+    ob = commit.obligations(ctx)
+    results += ob['O4'] + ob['O5']
+    import c06
+    results += c06.shared_freelist(ctx, rule='C09.shared-freelist')
     return dict(
         results=results, stats=dict(ctx.stats),
         explanation=(
